@@ -222,7 +222,12 @@ def _get_array_type(x):
     if data_type is pandas_engine.Engine.dtype("object"):
         inferred_alias = pd.api.types.infer_dtype(x, skipna=False)
         if inferred_alias != "string":
-            data_type = pandas_engine.Engine.dtype(inferred_alias)
+            try:
+                data_type = pandas_engine.Engine.dtype(inferred_alias)
+            except TypeError:
+                # labels that do not name a data type ("empty", "period",
+                # "unknown-array"): the array keeps the object dtype
+                pass
     return data_type
 
 
